@@ -6,15 +6,28 @@ namespace AutoVerif.C19
 def transmitOf (j : Json) : R Transmit := do
   pure { sender := ← strF j "from", rep := ← natF j "rep", round := ← natF j "round" }
 
+/-- a block number the implementation produced that is not a natural number (negative, nil) is kept
+    visible: it decodes to a number no chain contains and marks the content -/
+def badNumber : Nat := 10 ^ 40
+
 def blockOf (j : Json) : R Block := do
-  pure { number := ← natF j "n", hash := ← strF j "h", txs := ← listF transmitOf j "tx", content := ← strF j "c" }
+  let ns ← strF j "n"
+  let c ← strF j "c"
+  match ns.toNat? with
+  | some n => pure { number := n, hash := ← strF j "h", txs := ← listF transmitOf j "tx", content := c }
+  | none => pure { number := badNumber, hash := ← strF j "h", txs := ← listF transmitOf j "tx",
+                   content := c ++ "|number=" ++ ns }
 
 def evOf (j : Json) : R Ev := do
   pure { wid := ← strF j "wid", block := ← natF j "blk", conf := ← intF j "conf",
          rep := ← natF j "rep", round := ← natF j "round" }
 
 def recOf (j : Json) : R Rec := do
-  pure { t := ← transmitOf j, block := ← optOf asNat (fieldD j "blk" .null) }
+  let blk := match fieldD j "blk" .null with
+    | .null => none
+    | .str x => some (x.toNat?.getD badNumber)
+    | _ => some badNumber
+  pure { t := ← transmitOf j, block := blk }
 
 /-- flat `[rel, hashId, rel, hashId, …]` -/
 def histOf (genesis : Nat) (hashes : Array String) : List Int → R (List BlockKey)
@@ -27,7 +40,9 @@ def histOf (genesis : Nat) (hashes : Array String) : List Int → R (List BlockK
 def subOf (genesis : Nat) (dict : Array Block) (hashes : Array String) (j : Json) : R SubOut := do
   let recv ← listF asNat j "recv"
   let hists ← listF (listOf asInt) j "hists"
+  let slow ← listF asNat j "slow"
   pure { recv := recv.map fun i => dict.getD i { number := 0, hash := "?", txs := [] },
+         slow := slow.map fun i => dict.getD i { number := 0, hash := "?", txs := [] },
          hists := ← hists.mapM (histOf genesis hashes),
          events := ← listF (listOf evOf) j "events",
          seen := ← listF asNat j "seen" }
@@ -71,6 +86,7 @@ def inferOrder (genesis count : Nat) (hists : List (List BlockKey)) : List Nat :
 def handle (input impl : Json) : R Reply := do
   let inp ← inputOf input
   let native ← boolF input "native"
+  let stalls ← listOf (fun j => do pure (← natF j "sub", ← natF j "from", ← natF j "to")) (fieldD input "stalls" (.arr #[]))
   let got ← outOf inp.genesis impl
   let ch : Choices := {
     hashes := got.chain.map fun b => (b.hash, b.content),
@@ -78,6 +94,9 @@ def handle (input impl : Json) : R Reply := do
     orders := got.subs.map fun s => if native then some (inferOrder inp.genesis inp.count s.hists) else none,
     recvs := got.subs.map fun s =>
       if native then some (s.recv.map fun b => if b.number ≥ inp.genesis then b.number - inp.genesis else inp.count)
+      else none,
+    slows := got.subs.map fun s =>
+      if native then some (s.slow.map fun b => if b.number ≥ inp.genesis then b.number - inp.genesis else inp.count)
       else none }
   let want := run inp ch
   let p := paramsOf inp
@@ -96,6 +115,8 @@ def handle (input impl : Json) : R Reply := do
     else match (got.subs.zip want.subs).zipIdx.find? (fun ((g, w), _) => g ≠ w) with
       | some ((g, w), i) =>
         if g.recv ≠ w.recv then s!"sub {i} recv: model={w.recv.map (·.number)} impl={g.recv.map (·.number)}"
+        else if g.slow ≠ w.slow then
+          s!"sub {i} stallable consumer: {g.slow.length} blocks, model {w.slow.length}; first difference at position {((g.slow.zip w.slow).takeWhile fun (a, b) => a == b).length}"
         else if g.hists ≠ w.hists then
           match (g.hists.zip w.hists).zipIdx.find? (fun ((a, b), _) => a ≠ b) with
           | some ((a, b), k) => s!"sub {i} history {k}: model={b.map (·.number)} impl={a.map (·.number)}"
@@ -116,6 +137,14 @@ def handle (input impl : Json) : R Reply := do
   let tags :=
     (if native then ["native-delay"] else ["proxy-delay"]) ++
     (if crosses then ["crosses-power-of-ten"] else []) ++
+    (if !stalls.isEmpty then ["consumer-stalls"] else []) ++
+    (if stalls.any (fun (s, f, t) =>
+        ((runTimed inp ch s).filter fun x => decide (f < x.1 * 1000) && decide (x.1 * 1000 < t)).length > 100)
+      then ["consumer-lags-more-than-100-blocks"] else []) ++
+    (if (inp.txs.zipIdx.any fun ((_, s), i) =>
+          (inp.txs.take i).any (fun (_, e) => e.rep == s.rep && e.round == s.round) &&
+          (inp.txs.take i).any (fun (_, e) => decide (e.round > s.round + 16)))
+      then ["duplicate-after-more-than-16-rounds"] else []) ++
     (if inp.detach.any (· != 0) then ["subscriber-detaches"] else []) ++
     (if inp.attach.any (· != 0) then ["subscriber-joins-late"] else []) ++
     (if (inp.detach.zipIdx.any fun (d, i) => d != 0 && (inp.attach.zipIdx.any fun (a, j) => decide (j > i) && (a == 0 || a < d)
